@@ -46,8 +46,9 @@ def _shift(coords):
         A = (lambda v: np.array(v, dtype=object if c.symbolic else float))
         th = AbstractPointTheory(coordinates=coords)
         kw = dict(medium_index=n_med, illum_wavelen=lam, illum_polarization=(px, py), theory=th)
-        det0 = detector_points(x=A(xs), y=A(ys), z=A([0 * ax, 0 * ax]))
-        det1 = detector_points(x=A([v + ax for v in xs]), y=A([v + ay for v in ys]), z=A([0 * ax, 0 * ax]))
+        zs = [c.real("z0", sample=(-1, 1)), c.real("z1", sample=(-1, 1))]
+        det0 = detector_points(x=A(xs), y=A(ys), z=A(zs))
+        det1 = detector_points(x=A([v + ax for v in xs]), y=A([v + ay for v in ys]), z=A(zs))
         h0 = c.call(calc_holo, det0, Sphere(n=n, r=r, center=cen), **kw)
         h1 = c.call(calc_holo, det1, Sphere(n=n, r=r, center=[cen[0] + ax, cen[1] + ay, cen[2]]), **kw)
         c.ensures("kernel-positions-unchanged", c.eq(th.calls[1]['pos'], th.calls[0]['pos']))
@@ -62,6 +63,26 @@ def _shift(coords):
 for _cs in ("spherical", "cylindrical"):
     contract("C05", "shift_" + _cs, [SI + "calc_holo", IF + "ImageFormation._transform_to_desired_coordinates",
                                      IF + "ImageFormation._get_field_from"], bounded="two detector points")(_shift(_cs))
+
+
+@contract("C05", "shift_integer_pixel_grid", [IF + "ImageFormation._transform_to_desired_coordinates", SI + "calc_holo"],
+          bounded="3x3 grid with integer spacing 1 (integer-typed coordinates) and its crop shifted by whole pixels")
+def shift_integer_grid(c):
+    """on a detector given in whole pixels (integer-typed coordinates), moving the particle by a non-integer in-plane vector and
+    the detector by the same vector leaves the values unchanged (compared on a float grid shifted by the same vector)"""
+    lam, n_med, n, r = _optics(c)
+    cen = [c.real("cx", sample=(0.1, 1.9)), c.real("cy", sample=(0.1, 1.9)), c.real("cz", sample=(3, 9))]
+    ax, ay = c.real("shift_x", sample=(-3, 3)), c.real("shift_y", sample=(-3, 3))
+    from holopy.core.metadata import detector_grid
+    th = AbstractPointTheory(coordinates='cartesian')
+    kw = dict(medium_index=n_med, illum_wavelen=lam, illum_polarization=(1, 0), theory=th)
+    A = (lambda v: np.array(v, dtype=object if c.symbolic else float))
+    grid = detector_grid(2, 1)                       # integer coordinates 0, 1
+    h0 = c.call(calc_holo, grid, Sphere(n=n, r=r, center=cen), **kw)
+    moved = grid.assign_coords(x=A([0 + ax, 1 + ax]), y=A([0 + ay, 1 + ay]))
+    h1 = c.call(calc_holo, moved, Sphere(n=n, r=r, center=[cen[0] + ax, cen[1] + ay, cen[2]]), **kw)
+    c.ensures("kernel-positions-unchanged", c.eq(th.calls[1]['pos'], th.calls[0]['pos']))
+    c.ensures("hologram-unchanged", c.eq(h1.values, h0.values))
 
 
 def _rotation(coords):
